@@ -40,6 +40,9 @@ def streams(tier, rng, P, only=None, cases=None):
             if npar >= 2 and rng.random() < 0.2: args[rng.randrange(npar)] = ""
             call = call0 + ("(%s)" % ",".join(("{%s}" % a) if (a or rng.random() < 0.3) else "" for a in args) if npar else "")
             site = rng.choice(["%s", "%s", "[2 %s]", "Sub{ %s } r", "o5 %s v100", "#Outer={ %s r} #Outer"])
+            if npar == 0 and rng.random() < 0.25:
+                # a reference without arguments at the end of a line: what the next line begins with (a tuplet, a velocity step) is the next command
+                site = rng.choice(["%s\n{f g a}4 b", "%s // play it\n{c d}4 e", "%s\n(e) f", "l8 %s\n{c}2 d", "%s \n\n{g a}2", "%s /* x */\n( c"])
             # (also after declarations without an initial value: they leave nothing behind that a later call could pick up)
             pre = rng.choice(["", "l8 ", "o4 v80 ", "INT NQ ", "STR XQ l8 ", "ARRAY AQ; ", "Int NQ; Str XQ; "])
             raw.append(dict(define=define, call=call, site=site, pre=pre, body=body, args=args))
